@@ -43,6 +43,8 @@ use crate::{
 mod path_state;
 mod path_watcher;
 mod remote_info;
+#[cfg(feature = "verif-hooks")]
+pub(crate) use path_state::verif as verif_path_state;
 
 /// How often to attempt holepunching.
 ///
